@@ -90,29 +90,42 @@ theorem limits_exact (fs : Fs) (st : PState) (p0 : PState) (p1 : Pass1Result) (p
     have c3 : ¬ p2.ramFilling > p2.ctx.device.ramSize := by omega
     simp [c1, c2, c3]
 
+theorem consItem_ok (x : Nat × Item) (r : Out (Nat × List (Nat × Item) × Ctx)) (e : Nat) (o : List (Nat × Item)) (c : Ctx)
+    (h : consItem x r = .ok (e, o, c)) : ∃ o', r = .ok (e, o', c) := by
+  cases r with
+  | ok v => obtain ⟨e', o', c'⟩ := v; simp only [consItem, Out.ok.injEq, Prod.mk.injEq] at h; exact ⟨o', by rw [h.1, h.2.2]⟩
+  | error x => simp [consItem] at h
+  | panic x => simp [consItem] at h
+  | oof => simp [consItem] at h
+
 /-- pass 1 never lets a segment end beyond the capacity of its memory -/
 theorem pass1_within (t : SegT) (limit : Nat) : ∀ (items : List (Nat × Item)) (cur : Nat)
-    (out : List (Nat × Item)) (ctx : Ctx) (e : Nat) (o : List (Nat × Item)) (c : Ctx),
-    pass1Items t limit items cur out ctx = .ok (e, o, c) → e ≤ limit := by
+    (ctx : Ctx) (e : Nat) (o : List (Nat × Item)) (c : Ctx),
+    pass1Items t limit items cur ctx = .ok (e, o, c) → e ≤ limit := by
   intro items
   induction items with
   | nil =>
-    intro cur out ctx e o c h
+    intro cur ctx e o c h
     unfold pass1Items at h
     by_cases hc : cur > limit
     · simp [hc, noLineErr] at h
     · simp [hc] at h; omega
   | cons it rest ih =>
-    intro cur out ctx e o c h
+    intro cur ctx e o c h
     obtain ⟨ln, item⟩ := it
     unfold pass1Items at h
     by_cases hc : cur > limit
     · simp [hc, lineErr] at h
     · simp only [hc, if_false] at h
+      have hcons : ∀ x cur' ctx', consItem x (pass1Items t limit rest cur' ctx') = .ok (e, o, c) → e ≤ limit := by
+        intro x cur' ctx' hx
+        obtain ⟨o', ho⟩ := consItem_ok _ _ _ _ _ hx
+        exact ih _ _ _ _ _ ho
       split at h
       all_goals (first
-        | exact ih _ _ _ _ _ _ h
-        | (split at h <;> first | exact ih _ _ _ _ _ _ h | (simp [lineErr] at h; done) | (split at h <;> first | exact ih _ _ _ _ _ _ h | (simp [lineErr] at h; done)))
+        | exact ih _ _ _ _ _ h
+        | exact hcons _ _ _ h
+        | (split at h <;> first | exact ih _ _ _ _ _ h | exact hcons _ _ _ h | (simp [lineErr] at h; done) | (split at h <;> first | exact ih _ _ _ _ _ h | exact hcons _ _ _ h | (simp [lineErr] at h; done) | (split at h <;> first | exact ih _ _ _ _ _ h | exact hcons _ _ _ h | (simp [lineErr] at h; done))))
         | (simp [lineErr] at h; done))
 
 /-- selecting an unknown device is an error naming the line -/
